@@ -65,10 +65,13 @@ func PortSets(alpha []wm.NPPort) [][]wm.NPPort {
 var PodSels = []*wm.Sel{
 	{}, ml("app", "a"), me("app", "In", "a", "b"), me("app", "NotIn", "a"), me("tier", "Exists"), me("tier", "DoesNotExist"),
 	me("zzz", "NotIn", "q"), {ML: map[string]string{"app": "b"}, ME: []wm.Req{{Key: "tier", Op: "In", Vals: []string{"x"}}}},
+	// the empty string is a label value like any other: it is not "key absent"
+	ml("canary", ""), me("canary", "NotIn", ""),
 }
 var NsSels = []*wm.Sel{
 	{}, ml("team", "a"), ml(wm.NSNameKey, "ns2"), me("team", "NotIn", "a"), me("team", "Exists"),
 	me(wm.NSNameKey, "In", "ns1", "default"),
+	ml("team", ""),
 }
 
 var Cidrs = []wm.NPPeer{
@@ -127,7 +130,7 @@ func ThreeWL(cp1, cp2, cp3 []wm.CPort) []wm.Workload {
 		{Kind: "Deployment", NS: "ns1", Name: "w1", Labels: map[string]string{"app": "a"}, Ports: cp1, Replicas: 1},
 		{Kind: "Deployment", NS: "ns1", Name: "w2", Labels: map[string]string{"app": "b", "tier": "x"}, Ports: cp2, Replicas: 2},
 		// the same name as the first workload, in another namespace and of another kind (anything keyed by name alone collides)
-		{Kind: "StatefulSet", NS: "ns2", Name: "w1", Labels: map[string]string{"app": "a"}, Ports: cp3, Replicas: 1},
+		{Kind: "StatefulSet", NS: "ns2", Name: "w1", Labels: map[string]string{"app": "a", "canary": ""}, Ports: cp3, Replicas: 1},
 	}
 }
 
